@@ -47,8 +47,14 @@ pub fn gen_case(t: &mut Tape, feature_unimock: bool) -> Case {
             p.vt = VT::String;
         }
     }
+    // (for a multi-segment dependency path, more often: the parameter may then be named like the path's last segment)
+    if shape_class == "path" && !params.is_empty() && t.chance(1, 2) {
+        params[0].vt = VT::Gen;
+    }
     let has_gen = params.iter().any(|p| p.vt == VT::Gen);
-    let gen_bound = if is_async { "T: ::core::fmt::Debug + Send + Sync" } else { "T: ::core::fmt::Debug" };
+    // (it may be named like the last segment of the dependency's path: `fn f<PConf: ..>(deps: &inner::PConf, x: PConf)`)
+    let gn = if shape_class == "path" && has_gen && t.flip() { "PConf" } else { "T" };
+    let gen_bound = if is_async { format!("{gn}: ::core::fmt::Debug + Send + Sync") } else { format!("{gn}: ::core::fmt::Debug") };
     let lt_decl = match (named_lt, has_gen) {
         (true, true) => format!("<'d, {gen_bound}>"),
         (true, false) => "<'d>".to_string(),
@@ -57,12 +63,12 @@ pub fn gen_case(t: &mut Tape, feature_unimock: bool) -> Case {
     };
     let targ = if has_gen { "<i64>" } else { "" };
     let tparam = if has_gen { format!("<{gen_bound}>") } else { String::new() };
-    let tuse = if has_gen { "<T>" } else { "" };
+    let tuse = if has_gen { format!("<{gn}>") } else { String::new() };
     let dty = if named_lt { format!("&'d {ty}") } else { format!("&{ty}") };
     let ret = if borrowed_ret { if named_lt { "&'d str" } else { "&str" } } else { "String" };
     let mut ps = vec![format!("deps: {dty}")];
     for p in &params {
-        ps.push(format!("{}: {}", p.name, p.vt.ty("T")));
+        ps.push(format!("{}: {}", p.name, p.vt.ty(gn)));
     }
     let mut body = String::from("    let __id = rt::addr(deps);\n");
     let mut parts = vec![];
@@ -109,7 +115,7 @@ pub fn gen_case(t: &mut Tape, feature_unimock: bool) -> Case {
     src.push_str(&format!("pub struct App {{ pub pad: u64, pub c: {ty} }}\n"));
     // README case 1: a downstream application opts in by hand
     let hand_args: String = params.iter().map(|p| p.name.clone()).collect::<Vec<_>>().join(", ");
-    let hand_ps: String = params.iter().map(|p| format!(", {}: {}", p.name, p.vt.ty("T"))).collect();
+    let hand_ps: String = params.iter().map(|p| format!(", {}: {}", p.name, p.vt.ty(gn))).collect();
     let hand_ret = if borrowed_ret { "&str" } else { "String" };
     src.push_str(&format!(
         "/*GEN*/ impl{tparam} TheTrait{tuse} for App {{ {q}fn the_fn(&self{hand_ps}) -> {hand_ret} {{ self.c.the_fn({hand_args}){} }} }}\n",
@@ -160,6 +166,9 @@ pub fn gen_case(t: &mut Tape, feature_unimock: bool) -> Case {
     }
     if borrowed_ret {
         classes.push("borrowed_return");
+    }
+    if gn != "T" {
+        classes.push("type_parameter_named_like_the_last_segment_of_the_deps_path");
     }
     let twin: String = src.lines().filter(|l| !l.starts_with("/*GEN*/")).collect::<Vec<_>>().join("\n");
     let summary = format!("#[entrait({attr})] {} [{}]", fn_src.lines().next().unwrap_or(""), if feature_unimock { "feature unimock" } else { "no features" });
